@@ -148,11 +148,19 @@ class Imports:
     def __init__(self, tree: ast.Module):
         self.np_alias = set()
         self.pi_names = set()
+        self.utils_alias = set()   # names bound to the module ethz_snow.utils
         for st in tree.body:
             if isinstance(st, ast.Import):
                 for a in st.names:
                     if a.name == "numpy":
                         self.np_alias.add(a.asname or "numpy")
+                    if a.name == "ethz_snow.utils" and a.asname:
+                        self.utils_alias.add(a.asname)
+            elif isinstance(st, ast.ImportFrom) and st.module in ("ethz_snow", None, "") and any(
+                    a.name == "utils" for a in st.names):
+                for a in st.names:
+                    if a.name == "utils":
+                        self.utils_alias.add(a.asname or "utils")
             elif isinstance(st, ast.ImportFrom) and st.module == "numpy":
                 for a in st.names:
                     if a.name == "pi":
@@ -841,8 +849,9 @@ class Formula:
     (as printed by `ast.unparse`, e.g. `T_new`, `sigma_k[solidMask]`, `self._stats['t_sol']`)
     inside `func` (`Class.method` or `function`); emitted as the Lean definition `name`."""
 
-    def __init__(self, name, target, occ=1, ints=(), kind="expr"):
+    def __init__(self, name, target, occ=1, ints=(), kind="expr", inline=()):
         self.name, self.target, self.occ = name, target, occ
+        self.inline = set(inline)  # for a definition not yet committed: the local names to inline (others stay parameters)
         self.ints = set(ints)     # names that hold Python ints (emitted as `Int` parameters)
         self.kind = kind          # "expr" | "sortkey" (the `sorted(..., key=lambda …, reverse=…)` pattern)
 
@@ -894,6 +903,23 @@ def _assignments(stmts, out):
     return out
 
 
+UTILS_CALLS = {"vapour_flux": "N_w", "vapour_pressure_liquid": "p_liq", "vapour_pressure_solid": "p_sol"}
+_UTILS_SIG = {}
+
+
+def _utils_signature(fn):
+    """parameter names of utils.<fn> in the CURRENT source"""
+    if not _UTILS_SIG:
+        tree = ast.parse(source("utils.py"))
+        for st in tree.body:
+            if isinstance(st, ast.FunctionDef) and st.name in UTILS_CALLS:
+                args, defaults = _plain_args(st, "utils.py")
+                _UTILS_SIG[st.name] = args
+    if fn not in _UTILS_SIG:
+        raise TranslatorError(f"utils.py has no function {fn}")
+    return _UTILS_SIG[fn]
+
+
 class LocalDefs:
     """Sound inlining of local single-assignment definitions (`dt = self.dt`, `heat_capacity = cp_solution * mass`,
     `sigma_solid = sigma_k[solidMask]`) into a target formula, so that a refactoring that merely NAMES a
@@ -916,6 +942,7 @@ class LocalDefs:
         # functions imported by name from numpy / scipy (`from scipy.integrate import simps`): numerical library
         # functions that return new arrays and do not modify their arguments
         self.pure_names = set()
+        self.utils_alias = Imports(tree).utils_alias if tree is not None else set()
         for st in (tree.body if tree is not None else []):
             if isinstance(st, ast.ImportFrom) and st.module and st.module.split(".")[0] in ("numpy", "scipy"):
                 self.pure_names |= {a.asname or a.name for a in st.names}
@@ -1091,8 +1118,11 @@ class LocalDefs:
                             and f.attr not in ("put", "copyto", "place", "putmask", "fill_diagonal", "put_along_axis")) \
                         or (isinstance(f, ast.Name) and f.id in ("len", "int", "float", "enumerate", "range", "print", "any",
                                                                  "all", "sum", "min", "max", "abs", "isinstance", "str", "zip")) \
-                        or (isinstance(f, ast.Name) and f.id in self.pure_names and f.id not in self.bind)
-                    if isinstance(f, ast.Attribute) and isinstance(f.value, ast.Name) and f.value.id in ("np", "numpy", "math"):
+                        or (isinstance(f, ast.Name) and f.id in self.pure_names and f.id not in self.bind) \
+                        or (isinstance(f, ast.Attribute) and isinstance(f.value, ast.Name)
+                            and f.value.id in self.utils_alias and f.attr in UTILS_CALLS)
+                    if isinstance(f, ast.Attribute) and isinstance(f.value, ast.Name) and (
+                            f.value.id in ("np", "numpy", "math") or f.value.id in self.utils_alias):
                         out.discard((f.value.id, "*"))
                     for arg in ([] if pure else list(n.args) + [k.value for k in n.keywords]):
                         for m in ast.walk(arg):
@@ -1119,20 +1149,25 @@ class LocalDefs:
         return False
 
     def definition(self, name, target_stmt):
-        """the defining expression of `name` if it may be inlined at `target_stmt`, else None"""
+        """the defining expression of `name` that REACHES `target_stmt` if it may be inlined there, else None.
+        D is the last binding of `name` before S in source order; it must be a plain `name = <expr>` in a block that
+        encloses S (so it has run whenever S runs), and neither `name` nor anything D reads may be re-bound / stored
+        into / handed to a callee between D and S, nor anywhere in a loop that encloses S but not D."""
         if name in self.params or name in self.bad_names:
             return None
-        bs = self.bind.get(name, [])
-        if len(bs) != 1 or bs[0][0] != "plain":
-            return None
-        D = bs[0][1]
         pos = {id(st): (i, path) for (i, st, path) in self.stmts}
-        if id(D) not in pos or id(target_stmt) not in pos:
+        if id(target_stmt) not in pos:
             return None
-        (iD, pD), (iS, pS) = pos[id(D)], pos[id(target_stmt)]
-        if not (iD < iS and pS[:len(pD)] == pD):
+        iS, pS = pos[id(target_stmt)]
+        before = [(pos[id(st)][0], kind, st) for (kind, st) in self.bind.get(name, [])
+                  if id(st) in pos and pos[id(st)][0] < iS]
+        if not before:
             return None
-        reads = self._reads(D.value)
+        iD, kind, D = max(before, key=lambda t: t[0])
+        pD = pos[id(D)][1]
+        if kind != "plain" or pS[:len(pD)] != pD:
+            return None
+        reads = self._reads(D.value) | {(name, None)}
         lD, lS = self.loops_of[id(D)], self.loops_of[id(target_stmt)]
         outer = [l for l in lS if l not in lD]
         region = [st for (i, st, _p) in self.stmts if iD < i < iS]
@@ -1178,6 +1213,7 @@ class FormulaTr:
         self.ints = set(ints)
         self.needs_pi = False
         self.arange = None  # (length code, type, translator of the length) of the one np.arange in the formula
+        self.uses_utils = False
 
     def bad(self, node, why):
         _bad(node, self.fname, why)
@@ -1269,6 +1305,40 @@ class FormulaTr:
                 self.bad(n, "np.argmax / np.any only of a comparison")
             return c, "Bool"
         return self.expr(n), "α"
+
+    def utils_call(self, n, fn):
+        """`Utils.vapour_flux(a, b, …)` -> the formula-mode definition `Gen.FU.N_w` applied with NAMED arguments taken
+        from the signature of utils.py (so a swapped argument at the call site is seen)"""
+        sig = _utils_signature(fn)
+        if n.keywords and any(k.arg is None for k in n.keywords):
+            self.bad(n, "**kwargs in a utils call")
+        if len(n.args) > len(sig):
+            self.bad(n, "too many arguments in a utils call")
+        bound = dict(zip(sig, n.args))
+        for k in n.keywords:
+            if k.arg in bound or k.arg not in sig:
+                self.bad(n, f"argument {k.arg!r} of a utils call")
+            bound[k.arg] = k.value
+        if set(bound) != set(sig):
+            self.bad(n, "utils call does not supply every argument")
+        parts = [f"({lean_name(a)} := {self.expr(bound[a])})" for a in sig]
+        if fn == "vapour_flux":
+            parts.append(f"(np_pi := {self.param('np.pi', 'np_pi')})")
+        self.uses_utils = True
+        return f"(Gen.FU.{UTILS_CALLS[fn]} " + " ".join(parts) + ")"
+
+    def bexpr(self, n):
+        """a Bool: comparisons joined by `&`/`and`, `|`/`or`"""
+        if isinstance(n, ast.BinOp) and isinstance(n.op, (ast.BitAnd, ast.BitOr)):
+            op = "&&" if isinstance(n.op, ast.BitAnd) else "||"
+            return f"({self.bexpr(n.left)} {op} {self.bexpr(n.right)})"
+        if isinstance(n, ast.BoolOp):
+            op = "&&" if isinstance(n.op, ast.And) else "||"
+            return "(" + f" {op} ".join(self.bexpr(v) for v in n.values) + ")"
+        c, t = self.texpr(n)
+        if t != "Bool":
+            self.bad(n, "condition not understood (comparisons joined by & | and or)")
+        return c
 
     def arange_elem(self, n):
         """`np.arange(N)`, `np.arange(0, stop)`, `np.arange(0, stop, step)` inside a formula: the value of
@@ -1411,6 +1481,9 @@ class FormulaTr:
                 return f"({NP_FUNCS[f.attr]} {self.expr(n.args[0])})"
             if isinstance(f, ast.Attribute) and self.is_np(f.value) and f.attr == "arange":
                 return self.arange_elem(n)
+            if (isinstance(f, ast.Attribute) and isinstance(f.value, ast.Name) and f.value.id in self.imp.utils_alias
+                    and f.value.id not in self.params and f.attr in UTILS_CALLS):
+                return self.utils_call(n, f.attr)
             self.bad(n, "call not understood (only np.exp/log/sqrt/tanh with one argument, np.arange)")
         self.bad(n, "expression not understood")
 
@@ -1456,12 +1529,31 @@ def _sortkey_def(sp, value, st, src, fname):
             f"def {lean_name(sp.name)} ({' '.join(params)} : α) : Bool :=\n  {ge(0)}\n")
 
 
+def _committed_text(path):
+    """the COMMITTED version of a generated file (`git show HEAD:<path>`), so that what is inlined does not depend
+    on what a previous run - possibly on another source tree - left on disk; the file on disk only if git is not
+    available or the file is not committed yet"""
+    import subprocess
+    path = Path(path)
+    try:
+        rel = path.resolve().relative_to(core.VERIF.resolve())
+        r = subprocess.run(["git", "show", f"HEAD:{rel.as_posix()}"], cwd=str(core.VERIF), capture_output=True,
+                           text=True, timeout=30)
+        if r.returncode == 0 and r.stdout:
+            return r.stdout
+    except Exception:
+        pass
+    try:
+        return path.read_text()
+    except OSError:
+        return None
+
+
 def _old_params(path):
     """python names of the parameters of every definition in the committed generated file: the names the GenTie
     theorems apply with named arguments; any OTHER local name of the source may be inlined (LocalDefs)"""
-    try:
-        text = Path(path).read_text()
-    except OSError:
+    text = _committed_text(path)
+    if text is None:
         return None
     out = {}
     for m in re.finditer(r"parameters: (.*?) -/\ndef (\S+)", text, re.S):
@@ -1469,10 +1561,20 @@ def _old_params(path):
     return out
 
 
-def _keep_for(old, name):
+class _AllBut:
+    """keep-set of a definition that is not committed yet: every name stays a parameter except the listed locals"""
+
+    def __init__(self, names):
+        self.names = set(names)
+
+    def __contains__(self, x):
+        return x not in self.names
+
+
+def _keep_for(old, name, inline=()):
     """names NOT to inline for definition `name` (and its `_len` / `_count` / `_elem` companions)"""
     if old is None:
-        return None
+        return _AllBut(inline) if inline else None
     ks = set()
     hit = False
     for nm in (name, name + "_len", name + "_count", name + "_elem"):
@@ -1480,7 +1582,37 @@ def _keep_for(old, name):
         if ln in old:
             ks |= old[ln]
             hit = True
-    return ks if hit else None
+    if not hit:
+        return _AllBut(inline) if inline else None
+    return ks
+
+
+def _enclosing_if(fd, st):
+    for n in ast.walk(fd):
+        if isinstance(n, ast.If) and any(x is st for x in n.body):
+            return n
+    return None
+
+
+def _ifelse_code(sp, st, fd, tr, fname):
+    """the statement group `if <window>: [locals …]; x = a  else: x = b` around the targeted assignment `x = a`,
+    as the term `if cond then a else b` (locals of the branch inlined)"""
+    node = _enclosing_if(fd, st)
+    if node is None or node.body[-1] is not st:
+        _bad(st, fname, "if/else group: the targeted assignment must be the last statement of an if-branch")
+    for x in node.body[:-1]:
+        if not (isinstance(x, ast.Assign) and len(x.targets) == 1 and isinstance(x.targets[0], ast.Name)):
+            _bad(x, fname, "if/else group: only plain local assignments may precede the targeted one in the branch")
+    if not (len(node.orelse) == 1 and isinstance(node.orelse[0], ast.Assign) and len(node.orelse[0].targets) == 1
+            and ast.unparse(node.orelse[0].targets[0]) == sp.target):
+        _bad(node, fname, f"if/else group: the else-branch must be exactly one assignment to `{sp.target}`")
+    cond = tr.bexpr(node.test)
+    a = tr.expr(st.value)
+    if tr.inline is not None:
+        tr.inline = (tr.inline[0], node.orelse[0], tr.inline[2])
+    b = tr.expr(node.orelse[0].value)
+    text = " ".join(ast.unparse(node).split()).replace("-/", "- /")
+    return f"(if {cond} then {a} else {b})", text
 
 
 def _formula_defs(src, fname, func, specs, imp, tree, seen_names, old=None):
@@ -1563,6 +1695,7 @@ def translate_formulas(src: str, fname: str, func: str, specs, namespace: str, o
     old = _old_params(old_file) if old_file else None
     defs = []
     any_pi = False
+    uses_utils = False
     seen_names = set()
     for sp in specs:
         hits = [a for a in assigns if a[0] == sp.target]
@@ -1570,9 +1703,12 @@ def translate_formulas(src: str, fname: str, func: str, specs, namespace: str, o
             raise TranslatorError(f"{fname}: {func} has {len(hits)} assignment(s) to `{sp.target}`, "
                                   f"the tie needs #{sp.occ} (definition {sp.name})")
         _, value, st, augop = hits[sp.occ - 1]
-        keep = _keep_for(old, sp.name)
+        keep = _keep_for(old, sp.name, sp.inline)
         tr = FormulaTr(src, fname, imp, (), (local, st, keep) if keep is not None else None)
-        if augop is not None:
+        group_text = None
+        if sp.kind == "ifelse":
+            code, group_text = _ifelse_code(sp, st, fd, tr, fname)
+        elif augop is not None:
             # x op= e  is  x = x op (e)
             if type(augop) in BINOPS:
                 sym = BINOPS[type(augop)]
@@ -1585,12 +1721,13 @@ def translate_formulas(src: str, fname: str, func: str, specs, namespace: str, o
         else:
             code = tr.expr(value)
         any_pi = any_pi or tr.needs_pi
+        uses_utils = uses_utils or tr.uses_utils
         if sp.name in seen_names:
             raise TranslatorError(f"duplicate formula name {sp.name}")
         seen_names.add(sp.name)
         ps = list(tr.params.values())
         binder = f" ({' '.join(ps)} : α)" if ps else ""
-        text = " ".join(ast.unparse(st).split()).replace("-/", "- /")
+        text = group_text or " ".join(ast.unparse(st).split()).replace("-/", "- /")
         keys = ", ".join(f"`{k}`" for k in tr.params) or "none"
         if tr.inlined:
             text += "`\n    with the local definitions inlined: `" + "`, `".join(f"{a} = {b}" for a, b in tr.inlined)
@@ -1603,17 +1740,31 @@ def translate_formulas(src: str, fname: str, func: str, specs, namespace: str, o
         "  function; SnowProofs/Props/GenTie/*.lean proves each definition below equal to the\n"
         "  corresponding formula of the hand model, so an edited formula in the source breaks a proof.\n"
         "  Names are parameters; subscripts/attributes are opaque scalar parameters (per node / per vial).\n-/\n"
-        "import SnowModel.Num\nimport SnowModel.GenSupport\n\n"
-        f"namespace {namespace}\nvariable {{α : Type}} [Transc α]" + (" [HasPi α]" if any_pi else "") + "\n\n")
+        "import SnowModel.Num\nimport SnowModel.GenSupport\n" + ("import SnowModel.Gen.GenUtils\n" if uses_utils else "")
+        + f"\nnamespace {namespace}\nvariable {{α : Type}} [Transc α]" + (" [HasPi α]" if any_pi else "") + "\n\n")
     return head + "\n".join(defs) + f"\nend {namespace}\n"
 
 
 # ---------------------------------------------------------------------------
 def _write(path: Path, text: str) -> bool:
+    """atomic (temp file + os.replace) and only when the content changes (an unchanged file keeps its mtime, so
+    nothing is rebuilt and a concurrent reader never sees a half-written file)"""
+    import os
+    import tempfile
     path.parent.mkdir(parents=True, exist_ok=True)
     if path.exists() and path.read_text() == text:
         return False
-    path.write_text(text)
+    fd, tmp = tempfile.mkstemp(dir=str(path.parent), prefix="." + path.name + ".", suffix=".tmp")
+    try:
+        with os.fdopen(fd, "w") as f:
+            f.write(text)
+        os.replace(tmp, path)
+    except BaseException:
+        try:
+            os.unlink(tmp)
+        except OSError:
+            pass
+        raise
     return True
 
 
